@@ -226,10 +226,10 @@ def main():
         exit_code = 1
     for kid, (k, n) in sorted(known_hits.items()):
         print(f"KNOWN-FINDING: property={prop} {k['id']} {k['what']} [{n} case(s)]")
+    for r in harness_errors[:3]:
+        print("[harness-error]", json.dumps(r["case"], default=str)[:300], r["harness_error"][-800:], file=sys.stderr)
     if harness_errors and exit_code == 0:
         # infrastructure problem: not a violation
-        for r in harness_errors[:3]:
-            print("[harness-error]", json.dumps(r["case"], default=str)[:300], r["harness_error"][-800:], file=sys.stderr)
         if len(harness_errors) > max(2, len(results) // 10):
             exit_code = 2
 
